@@ -257,7 +257,10 @@ def _limit_pos(
   sensorid = sensor_limitpos_adr[limitposid]
   if efc_id_in[worldid, efcid] == sensor_objid[sensorid]:
     efc_type = efc_type_in[worldid, efcid]
-    if efc_type == ConstraintType.LIMIT_JOINT or efc_type == ConstraintType.LIMIT_TENDON:
+    # the limit row must be of the sensor's own kind: joint k and tendon k share the id k
+    if (efc_type == ConstraintType.LIMIT_JOINT and sensor_type[sensorid] == SensorType.JOINTLIMITPOS) or (
+      efc_type == ConstraintType.LIMIT_TENDON and sensor_type[sensorid] == SensorType.TENDONLIMITPOS
+    ):
       val = efc_pos_in[worldid, efcid] - efc_margin_in[worldid, efcid]
       _write_scalar(sensor_type, sensor_datatype, sensor_adr, sensor_cutoff, sensorid, val, sensordata_out[worldid])
 
@@ -1056,7 +1059,10 @@ def _limit_vel(
   sensorid = sensor_limitvel_adr[limitvelid]
   if efc_id_in[worldid, efcid] == sensor_objid[sensorid]:
     efc_type = efc_type_in[worldid, efcid]
-    if efc_type == ConstraintType.LIMIT_JOINT or efc_type == ConstraintType.LIMIT_TENDON:
+    # the limit row must be of the sensor's own kind: joint k and tendon k share the id k
+    if (efc_type == ConstraintType.LIMIT_JOINT and sensor_type[sensorid] == SensorType.JOINTLIMITVEL) or (
+      efc_type == ConstraintType.LIMIT_TENDON and sensor_type[sensorid] == SensorType.TENDONLIMITVEL
+    ):
       _write_scalar(
         sensor_type, sensor_datatype, sensor_adr, sensor_cutoff, sensorid, efc_vel_in[worldid, efcid], sensordata_out[worldid]
       )
@@ -1668,7 +1674,10 @@ def _limit_frc(
   sensorid = sensor_limitfrc_adr[limitfrcid]
   if efc_id_in[worldid, efcid] == sensor_objid[sensorid]:
     efc_type = efc_type_in[worldid, efcid]
-    if efc_type == ConstraintType.LIMIT_JOINT or efc_type == ConstraintType.LIMIT_TENDON:
+    # the limit row must be of the sensor's own kind: joint k and tendon k share the id k
+    if (efc_type == ConstraintType.LIMIT_JOINT and sensor_type[sensorid] == SensorType.JOINTLIMITFRC) or (
+      efc_type == ConstraintType.LIMIT_TENDON and sensor_type[sensorid] == SensorType.TENDONLIMITFRC
+    ):
       _write_scalar(
         sensor_type, sensor_datatype, sensor_adr, sensor_cutoff, sensorid, efc_force_in[worldid, efcid], sensordata_out[worldid]
       )
